@@ -36,6 +36,7 @@ func init() {
 		"go.fifthex":     goFiftHex,
 		"go.fiftreject":  goFiftReject,
 		"go.topup":       goTopUp,
+		"go.settop":      goSetTop,
 		"go.parsedwrite": goParsedWrite,
 		"go.refs":        goRefs,
 		"go.copyrem":     goCopyRemaining,
@@ -860,6 +861,43 @@ func goTopUp(a []string) string {
 	}
 	if bitsOfBs(bs) != bin {
 		return fail("topup-mutates", "receiver changed")
+	}
+	return "ok"
+}
+
+// go.settop <hex>: SetTopUppedArray(arr, false) accepts exactly the arrays whose last byte carries the completion tag in
+// its low seven bits (a 1 followed by 0..6 zeros) and then holds the bits before the tag; an array whose last seven bits
+// are all zero has no tag and must be rejected (a 1 eight bits from the end is data, not a tag).
+func goSetTop(a []string) string {
+	arr := h.MustUnHex(a[0])
+	var bs boc.BitString
+	err := bs.SetTopUppedArray(arr, false)
+	if len(arr) == 0 {
+		if err != nil {
+			return fail("settop-empty", "")
+		}
+		return "ok"
+	}
+	last := arr[len(arr)-1]
+	if last&0x7f == 0 {
+		if err == nil {
+			return fail("settop-accepts", "%x has no tag in its last 7 bits, accepted with %d bits", arr, bs.GetWriteCursor())
+		}
+		return "ok"
+	}
+	if err != nil {
+		return fail("settop-rejects", "%x", arr)
+	}
+	want := 8*len(arr) - 1 - bits.TrailingZeros8(last)
+	if bs.GetWriteCursor() != want {
+		return fail("settop-len", "%x: %d bits, want %d", arr, bs.GetWriteCursor(), want)
+	}
+	var sb strings.Builder
+	for _, b := range arr {
+		fmt.Fprintf(&sb, "%08b", b)
+	}
+	if got := bitsOfBs(bs); got != sb.String()[:want] {
+		return fail("settop-bits", "%x", arr)
 	}
 	return "ok"
 }
@@ -2050,6 +2088,20 @@ func genC06(g *h.G) {
 	for n := 0; n <= 7; n++ {
 		g.Emit("go.refs", fmt.Sprint(n))
 	}
+	// SetTopUppedArray on arbitrary arrays: every value of the last byte x both parities of the byte before it
+	for last := 0; last < 256; last++ {
+		for _, prev := range []byte{0x00, 0x01, 0xfe, 0xff} {
+			arr := append(g.Bytes(g.Rng.Intn(3)), prev, byte(last))
+			if last%4 == 0 && prev == 0 {
+				arr = []byte{byte(last)}
+			}
+			g.Emit("go.settop", h.Hex(arr))
+			g.Emit("bs.seq", "0", fmt.Sprintf("st:%s:0;av;ru:3;rr", h.Hex(arr)))
+		}
+	}
+	g.Emit("go.settop", "-")
+	g.Emit("bs.seq", "0", "st:-:0;av")
+	g.Emit("bs.seq", "0", "st:-:1;av")
 	for i := 0; i < 72*g.Scale(2, 6); i++ { // every (operation, size) pair, deterministically
 		nb := 8 * g.Rng.Intn(6)
 		if i%3 == 0 {
